@@ -46,7 +46,15 @@ import (
 	"github.com/hprose/hprose-golang/v3/rpc/core"
 	rpcfasthttp "github.com/hprose/hprose-golang/v3/rpc/http/fasthttp"
 	"github.com/hprose/hprose-golang/v3/rpc/mock"
+	"github.com/hprose/hprose-golang/v3/rpc/plugins/circuitbreaker"
+	"github.com/hprose/hprose-golang/v3/rpc/plugins/cluster"
+	"github.com/hprose/hprose-golang/v3/rpc/plugins/limiter"
+	"github.com/hprose/hprose-golang/v3/rpc/plugins/loadbalance"
+	rpclog "github.com/hprose/hprose-golang/v3/rpc/plugins/log"
+	"github.com/hprose/hprose-golang/v3/rpc/plugins/oneway"
+	"github.com/hprose/hprose-golang/v3/rpc/plugins/push"
 	"github.com/hprose/hprose-golang/v3/rpc/plugins/reverse"
+	"github.com/hprose/hprose-golang/v3/rpc/plugins/timeout"
 	rpcsocket "github.com/hprose/hprose-golang/v3/rpc/socket"
 	rpcudp "github.com/hprose/hprose-golang/v3/rpc/udp"
 	rpcws "github.com/hprose/hprose-golang/v3/rpc/websocket"
@@ -276,6 +284,8 @@ func childMain(line []byte) {
 	switch {
 	case c.Fault == "provider-panic" || (c.Side == "client" && (c.Fault == "hostile-panic-value" || c.Fault == "nested-hostile-panic-value")):
 		err = scenarioProvider(&c)
+	case c.Fault == "subscriber-panic":
+		err = scenarioSubscriber(&c)
 	case c.Side == "server" && isRawFault(c.Fault):
 		err = scenarioServerRaw(&c)
 	case c.Side == "server":
@@ -460,6 +470,7 @@ func (c boomCodec) Decode(request []byte, context *core.ServiceContext) (string,
 }
 
 type realServer struct {
+	broker  *push.Broker
 	tr      string
 	service *core.Service
 	url     string
@@ -513,6 +524,27 @@ func startReal(tr string, pool bool, c *c11Case) (*realServer, error) {
 		}
 		return resp, err
 	})
+	if c != nil && c.Fault == "panic-under-timeout-plugin" {
+		svc.Use(timeout.New(5 * time.Second)) // every service function now runs on the plugin's goroutine
+	}
+	if c != nil && c.Fault == "subscriber-panic" {
+		s.broker = push.NewBroker(svc)
+	}
+	if c != nil && strings.HasPrefix(c.Variant, "under:") {
+		// the service function panics below a standard plugin that wraps the execution on the service side
+		switch c.Variant {
+		case "under:ratelimiter":
+			rl := limiter.NewRateLimiter(1000000)
+			svc.Use(rl.IOHandler, rl.InvokeHandler)
+		case "under:concurrentlimiter":
+			svc.Use(limiter.NewConcurrentLimiter(64).Handler)
+		case "under:log":
+			lg := rpclog.New(func(v ...interface{}) {})
+			svc.Use(lg.IOHandler, lg.InvokeHandler)
+		case "under:timeout-disabled":
+			svc.Use(timeout.New(0)) // timeout <= 0: the plugin calls next on the caller's goroutine
+		}
+	}
 	if c != nil && c.Fault == "missing-method-panic" {
 		svc.AddMissingMethod(func(name string, args []interface{}) ([]interface{}, error) {
 			if name == "nosuchboom" {
@@ -712,8 +744,44 @@ func scenarioServerAPI(c *c11Case) error {
 	waitEntered(s.entered, 2, "slow")
 	var fault string
 	switch c.Fault {
-	case "service-panic", "hostile-panic-value", "nested-hostile-panic-value":
-		fault = call(a, "boom", "", c.Variant)
+	case "service-panic", "hostile-panic-value", "nested-hostile-panic-value", "panic-under-timeout-plugin":
+		kind := c.Variant
+		if strings.HasPrefix(kind, "under:") || strings.HasPrefix(kind, "via:") {
+			kind = "string"
+		}
+		switch c.Variant {
+		// ... or is observed by a client through a standard plugin that wraps the call on the client side
+		case "via:circuitbreaker":
+			a.Use(circuitbreaker.New())
+		case "via:cluster-failover":
+			a.Use(cluster.New(cluster.FailoverConfig(cluster.WithRetry(1))))
+		case "via:cluster-forking":
+			a.Use(cluster.Forking)
+		case "via:cluster-broadcast":
+			a.Use(cluster.Broadcast)
+		case "via:loadbalance":
+			a.Use(loadbalance.NewRandomLoadBalance())
+		case "via:log":
+			lg := rpclog.New(func(v ...interface{}) {})
+			a.Use(lg.IOHandler, lg.InvokeHandler)
+		case "via:oneway":
+			a.Use(oneway.Oneway{})
+		}
+		if c.Variant == "via:oneway" {
+			// a oneway call returns at once and reports nothing: the panic happens behind the caller's back
+			fault = guard(func() string {
+				cc := core.NewClientContext()
+				cc.Items().Set("oneway", true)
+				_, err := a.InvokeContext(core.WithContext(context.Background(), cc), "boom", []interface{}{kind})
+				if err != nil {
+					return "err:" + short(err.Error())
+				}
+				time.Sleep(200 * time.Millisecond)
+				return "ok"
+			})
+		} else {
+			fault = call(a, "boom", "", kind)
+		}
 	case "invoke-plugin-panic":
 		fault = echo(a, "INVOKE-PLUGIN-BOOM")
 	case "io-plugin-panic":
@@ -1572,4 +1640,78 @@ func collectDuring() {
 	case <-time.After(callGuard + time.Second):
 		theObs.During = "hang"
 	}
+}
+
+// ---------------------------------------------------------------- scenario: push subscriber callback
+
+func scenarioSubscriber(c *c11Case) error {
+	panicKind = c.Variant
+	if panicKind == "" {
+		panicKind = "string"
+	}
+	s, err := startReal(c.Transport, false, c)
+	if err != nil {
+		return err
+	}
+	ca, cb := newClient(s.url), newClient(s.url)
+	gotA, gotB := make(chan string, 8), make(chan string, 8)
+	pa := push.NewProsumer(ca, "A")
+	pa.RetryInterval = 10 * time.Millisecond
+	pb := push.NewProsumer(cb, "B")
+	pb.RetryInterval = 10 * time.Millisecond
+	if _, err := pa.Subscribe("t", func(data string) {
+		if data == "BOOM" {
+			doPanic(panicKind)
+		}
+		gotA <- data
+	}); err != nil {
+		return err
+	}
+	if _, err := pb.Subscribe("t", func(data string) { gotB <- data }); err != nil {
+		return err
+	}
+	deliver := func(id, data string, got chan string) string {
+		return guard(func() string {
+			r := s.broker.Push(data, "t", id)
+			if !r[id] {
+				return "err:broker could not queue the message for " + id
+			}
+			select {
+			case d := <-got:
+				if d != data {
+					return "wrong:" + short(d)
+				}
+				return "ok"
+			case <-time.After(clientTimeout + time.Second):
+				return "err:timeout: message not delivered"
+			}
+		})
+	}
+	b := newClient(s.url)
+	// (over the mock transport a subscriber is marked offline after its first delivery — the request context the
+	// broker's heartbeat hangs on ends with the call; so the faulty message is A's first one on every transport)
+	theObs.Before["same"] = echo(ca, "before-a")
+	theObs.Before["other"] = echo(cb, "before-b")
+	ia, ib := make(chan string, 1), make(chan string, 1)
+	go func() { ia <- call(ca, "slow", "slow:a", "a") }() // a call in flight on the subscriber's own client
+	go func() { ib <- call(b, "slow", "slow:b", "b") }()
+	waitEntered(s.entered, 2, "slow")
+	// the fault: a message whose delivery makes A's callback panic
+	r := s.broker.Push("BOOM", "t", "A")
+	if !r["A"] {
+		note("broker could not queue the faulty message")
+	}
+	time.Sleep(300 * time.Millisecond)
+	theObs.Fault = "n/a"
+	s.releaseAll()
+	theObs.InflightSame = collect(ia)
+	theObs.InflightOther = collect(ib)
+	if c.Transport == "mock" {
+		theObs.AfterSame = echo(ca, "after-a")
+	} else {
+		theObs.AfterSame = deliver("A", "after-a", gotA) // the subscriber keeps receiving
+	}
+	theObs.AfterOther = deliver("B", "hello-b", gotB)
+	theObs.AfterFresh = echo(newClient(s.url), "after-c")
+	return nil
 }
